@@ -1,0 +1,52 @@
+//go:build verif
+
+package cache
+
+// Machine-checked contracts for the cache (comment-only; compiled only with -tags verif).
+
+//@ props C01 C02 C10 C14
+
+//@ pred CacheInv(c *Cache) := c.inner != nil
+
+//@ func (*Cache).Get
+//@ requires CacheInv(c)
+//@ ensures result0 == mget(mapval(c.inner), name) && result1 == mhas(mapval(c.inner), name)
+
+//@ func (*Cache).Set
+//@ requires CacheInv(c)
+//@ modifies mapOf(c.inner)
+//@ ensures mhas(mapval(c.inner), name) && mget(mapval(c.inner), name) == digest
+//@ ensures forall k string :: {mget(mapval(c.inner), k)} k != name ==> mget(mapval(c.inner), k) == old(mget(mapval(c.inner), k))
+//@ ensures forall k string :: {mhas(mapval(c.inner), k)} k != name ==> mhas(mapval(c.inner), k) == old(mhas(mapval(c.inner), k))
+
+// Load: os.ReadFile + json.Unmarshal glue; trusted against the JSON axioms of cache.spec.
+//@ func Load
+//@ trusted encoding/json.Unmarshal through a pointer to a map field is outside the verified subset
+//@ ensures err == nil ==> result != nil && fresh(result) && CacheInv(result) && fresh(result.inner) && diskOK(path)
+//@ ensures err == nil ==> forall k string :: {mget(mapval(result.inner), k)} mget(mapval(result.inner), k) == jsonGet(fdata[path], k)
+//@ ensures err == nil ==> forall k string :: {mhas(mapval(result.inner), k)} mhas(mapval(result.inner), k) == jsonHas(fdata[path], k)
+//@ ensures ioOK && diskOK(path) ==> err == nil
+
+// Dump: json.Marshal + os.WriteFile (truncate, then write): on error the file may be left torn.
+//@ func (*Cache).Dump
+//@ trusted encoding/json.Marshal of a map boxed in an interface is outside the verified subset
+//@ requires CacheInv(c)
+//@ modifies fexists, fdata
+//@ ensures err == nil ==> fexists == store(old(fexists), path, true) && fdata == store(old(fdata), path, marshalMap(mapval(c.inner)))
+//@ ensures err != nil ==> forall p string :: {fdata[p]} p != path ==> fdata[p] == old(fdata)[p]
+//@ ensures err != nil ==> forall p string :: {fexists[p]} p != path ==> fexists[p] == old(fexists)[p]
+//@ ensures err != nil ==> !diskOK(path) || fdata[path] == old(fdata)[path] || fdata[path] == marshalMap(mapval(c.inner))
+//@ ensures ioOK ==> err == nil
+
+//@ func Exists
+//@ trusted os.Stat
+//@ ensures result ==> fexists[path]
+//@ ensures ioOK && fexists[path] ==> result
+
+// Init writes an all-empty cache (and .gitignore / CACHEDIR.TAG next to it).
+//@ func Init
+//@ trusted os.MkdirAll / os.WriteFile effects on the abstract file system are not modelled per call yet
+//@ modifies fexists, fdata
+//@ ensures err == nil ==> diskOK(path) && forall k string :: {jsonGet(fdata[path], k)} jsonGet(fdata[path], k) == ""
+//@ ensures err != nil ==> !diskOK(path) || forall k string :: {jsonGet(fdata[path], k)} jsonGet(fdata[path], k) == ""
+//@ ensures ioOK ==> err == nil
